@@ -54,7 +54,7 @@ Spec == Init /\ [][Next]_vars
 PlanIsDecode ==
   phase = "done" => \A inp \in Inputs : \A cut \in 0..N : Agree(T, M, K, gen.plan, SubSeq(inp, 1, cut), 0)
 PlanIsDecodeAtOffset ==
-  phase = "done" => Agree(T, M, K, gen.plan, Ramp(N + 16), 16)
+  phase = "done" => Agree(T, M, K, gen.plan, Ramp(N + 5), 5)
 \* the step machine and the folded function are the same generator
 MachineIsFunction == phase = "done" => gen.plan = GenPlan(T, M, OldGen)
 =============================================================================
